@@ -827,6 +827,15 @@ theorem every_constructor_attr_captured (s : Shape) (hs : s ∈ Generated.AttrSi
   simp only [Entry.ok, Bool.and_eq_true] at hok
   exact captured e.observed a (by rw [hk]; exact hok.1) hp ms
 
+/-- **Every variadic input of every shipped constructor** (each parameter typed `Sequence[Var]` in the 8 modules,
+    regenerated every run): it is handed to the `Inputs` dataclass as the bare parameter, hence stored by
+    `BaseVars.__post_init__`, whose capture row passes - so the caller's list of Vars is captured at the call
+    (`captured_at_call`) for concat / max / min / mean / sum / einsum / sequence_construct / loop / scan / sequence_map /
+    feature_vectorizer alike. -/
+theorem generated_variadics_ok :
+    (∀ v ∈ Generated.AttrSites.variadics, v.2 = true) ∧ Generated.AttrSites.variadics.length ≥ 10 ∧
+    Generated.CaptureTable.table.any (fun e => e.site == "BaseVars.variadic" && e.ok && e.kind == .flat) = true := by decide
+
 /-- Non-vacuity: a generator of three items through a single pass, through a pre-pass, and a list through a pre-pass. -/
 example : stored [.full] (⟨[3, 1, 2], true⟩ : Src Nat) = [3, 1, 2] := rfl
 example : stored [.full, .full] (⟨[3, 1, 2], true⟩ : Src Nat) = [] := rfl
